@@ -3,6 +3,10 @@ import GramModel.Lemmas.Eval
 import GramModel.Lemmas.Oracle
 import GramModel.Typing
 import GramModel.StepRel
+import GramModel.Lemmas.Canonical
+import GramModel.Lemmas.PreservationMain
+import GramModel.Lemmas.PreservationRefute
+import GramModel.Lemmas.SoundRun
 
 /-!
 # C04 — a program's value inhabits the type reported for the program
@@ -79,13 +83,82 @@ theorem C04_canonical_forms : C04_canonical_forms_stmt := by
 /-- **Subject reduction.**  Evaluation preserves types: if a hole-free term has type `T` under the
 declarative rules (`Typing.lean`) in hole-free contexts whose offsets are in range, and it takes one step of
 the call-by-value semantics, the result has type `T` too.  (Stated for arbitrary contexts because the
-evaluator steps inside the definitions of a group, i.e. under the group's binders.) -/
-def C04_preservation_stmt : Prop :=
+evaluator steps inside the definitions of a group, i.e. under the group's binders.)
+
+**FALSE** as stated (renamed from `C04_preservation_stmt`; refuted below, corrected in
+`C04_preservation_fixed_stmt`). -/
+def C04_preservation_unrestricted : Prop :=
   ∀ (Γ : TCtxX) (Δ : DCtxX) (t t' T : Tm), t.holeFree = true →
     (∀ p ∈ Γ, p.1.holeFree = true) → (∀ p ∈ Δ, ∀ d o, p = some (d, o) → d.holeFree = true) →
     (∀ i ty off, Γ[i]? = some (ty, off) → off ≤ i + 1) →
     (∀ i d off, Δ[i]? = some (some (d, off)) → off ≤ i + 1) →
     HasType Γ Δ t T → Step t t' → HasType Γ Δ t' T
+
+/-- Subject reduction fails, already for closed terms in the empty contexts.  Witness
+(`Lemmas/PreservationRefute.lean`): the hole-free program
+
+    x : type = (w : x) -> if y w then int else bool;
+    y : (x -> bool) = z => true;
+    0
+
+(`Pres.Refute.t0`) has type `x : …; y : …; int` (the oracle accepts it), and takes one step — `x`'s
+definition is a `Π`, hence a value, so the group unfolds it — to `Pres.Refute.t1`, which has no type at
+all (`Pres.Refute.t1_untypable`): `y`'s new annotation `U -> bool`, `U = (w : L) -> …`,
+`L = (x = (w : x) -> if y w then int else bool; x)`, contains the group `L`, whose definition applies
+`y : U -> bool` to `w : x` under the *new* binder `x`; the variable `x` (unfolding to `(w : x) -> …`) and
+`U` are not convertible: by confluence they would have a common reduct, but every reduct of `x` is a
+tower of `Π`s over the variable and every reduct of `U` a tower of `Π`s over a group. -/
+theorem C04_preservation_refuted : ¬ C04_preservation_unrestricted := fun h =>
+  Pres.Refute.t1_untypable _
+    (h [] [] Pres.Refute.t0 Pres.Refute.t1 Pres.Refute.T0 Pres.Refute.t0_hf (fun _ hp => by cases hp)
+      (fun _ hp => by cases hp) (fun _ _ _ e => by simp at e) (fun _ _ _ e => by simp at e)
+      Pres.Refute.t0_typed Pres.Refute.t0_step)
+
+/-- **Subject reduction, corrected.**  `Pres.StepOK Γ Δ t t'` (`Lemmas/PreservationMain.lean`) is `Step t t'`
+with the contexts of the redex threaded through (a step inside the first definition of a group happens
+under the group's context `pushGroupX ds 0 (Γ, Δ)`), where the rule that unfolds the first definition
+`x : ann = d` of a group carries one side condition: the recursive unfolding `let x = d; x` that
+`unfoldDef` substitutes (`Pres.selfLet x ann d rest.len`) is well typed in the context of the remaining
+group.  Under that condition every step preserves every hole-free type.
+
+What was wrong with `C04_preservation_unrestricted`: `unfoldDef` re-binds `x` in front of the *remaining* group,
+whose annotations and definitions have `x` already replaced by the unfolding `U`.  If the type of a later
+definition `y` mentions `x`, and `d` uses `y`, then typing `d` under the new binder needs the new
+(transparent) variable `x` and `U` to be convertible; they are two fixed points of the same functional
+and in general never meet (witness: `x : type = (w : x) -> if y w then int else bool;
+y : (x -> bool) = z => true; 0`, which steps to a term that is not typable).  The side condition is
+vacuous for group-free terms (`C04_preservation_nolet`) and is what a run of the oracle on `let x = d; x`
+establishes.  The type is required to be hole-free because conversion is not stable under weakening in
+the presence of holes (`open_ushift_high` fails on holes); without that hypothesis the conclusion holds
+for `T` with its holes replaced by `type` (`Pres.preservation_dh`). -/
+def C04_preservation_fixed_stmt : Prop :=
+  ∀ (Γ : TCtxX) (Δ : DCtxX) (t t' T : Tm), t.holeFree = true → T.holeFree = true →
+    (∀ p ∈ Γ, p.1.holeFree = true) → (∀ p ∈ Δ, ∀ d o, p = some (d, o) → d.holeFree = true) →
+    (∀ i ty off, Γ[i]? = some (ty, off) → off ≤ i + 1) →
+    (∀ i d off, Δ[i]? = some (some (d, off)) → off ≤ i + 1) →
+    HasType Γ Δ t T → Pres.StepOK Γ Δ t t' → HasType Γ Δ t' T
+theorem C04_preservation_fixed : C04_preservation_fixed_stmt :=
+  fun _ _ _ _ _ ht hTy hΓ hΔ hO hW h hs => Pres.preservation ht hTy hΓ hΔ hO hW h hs
+
+/-- `Pres.StepOK` is `Step` with extra premises, and on group-free terms it is all of `Step`. -/
+def C04_stepOK_step_stmt : Prop :=
+  (∀ (Γ : TCtxX) (Δ : DCtxX) (t t' : Tm), Pres.StepOK Γ Δ t t' → Step t t') ∧
+  (∀ (Γ : TCtxX) (Δ : DCtxX) (t t' : Tm), CheckSound.noLet t = true → Step t t' → Pres.StepOK Γ Δ t t')
+theorem C04_stepOK_step : C04_stepOK_step_stmt :=
+  ⟨fun _ _ _ _ h => h.step, fun Γ Δ _ _ hn h => Pres.stepOK_of_noLet h hn Γ Δ⟩
+
+/-- **Subject reduction for the group-free fragment**: every step of a term without definition groups
+preserves every hole-free type (in any hole-free contexts whose offsets are in range). -/
+def C04_preservation_nolet_stmt : Prop :=
+  ∀ (Γ : TCtxX) (Δ : DCtxX) (t t' T : Tm), t.holeFree = true → T.holeFree = true →
+    CheckSound.noLet t = true →
+    (∀ p ∈ Γ, p.1.holeFree = true) → (∀ p ∈ Δ, ∀ d o, p = some (d, o) → d.holeFree = true) →
+    (∀ i ty off, Γ[i]? = some (ty, off) → off ≤ i + 1) →
+    (∀ i d off, Δ[i]? = some (some (d, off)) → off ≤ i + 1) →
+    HasType Γ Δ t T → Step t t' → HasType Γ Δ t' T
+theorem C04_preservation_nolet : C04_preservation_nolet_stmt :=
+  fun Γ Δ _ _ _ ht hTy hn hΓ hΔ hO hW h hs =>
+    Pres.preservation ht hTy hΓ hΔ hO hW h (Pres.stepOK_of_noLet hs hn Γ Δ)
 
 /-- **Canonical forms under the declarative rules**: a closed value whose type is convertible with `int` is
 an integer literal, with `bool` is `true` or `false`, with a function type is a function, with `type` is a
@@ -97,3 +170,44 @@ def C04_canonical_forms_declarative_stmt : Prop :=
     (Conv [] T .bool → v = .tt ∨ v = .ff) ∧
     (∀ x im d c, Conv [] T (.pi x im d c) → ∃ y jm e b, v = .lam y jm e b) ∧
     (Conv [] T .type → v = .type ∨ v = .int ∨ v = .bool ∨ ∃ x im d c, v = .pi x im d c)
+theorem C04_canonical_forms_declarative : C04_canonical_forms_declarative_stmt :=
+  fun _ _ hv _ ht =>
+    ⟨fun hc => Canonical.canonical_int Canonical.DWF_nil hv ht hc,
+     fun hc => Canonical.canonical_bool Canonical.DWF_nil hv ht hc,
+     fun _ _ _ _ hc => Canonical.canonical_pi Canonical.DWF_nil hv ht hc,
+     fun hc => Canonical.canonical_type Canonical.DWF_nil hv ht hc⟩
+
+/-- **C04 on the group-free fragment.**  If the model of gram's checker accepts a closed hole-free group-free
+program with (zonked) type `zty`, and running it `n` steps reaches a value `v`, then `v` has type `zty` under the
+declarative rules — hence (canonical forms) a program of type `int` yields an integer literal, of type `bool` a
+boolean, of a function type a function, of type `type` a type. -/
+def C04_value_inhabits_type_nolet_stmt : Prop :=
+  ∀ (fuel n : Nat) (t e ty zty : Tm) (s : St), t.holeFree = true → wellScoped 0 t = true →
+    CheckSound.noLet t = true → inferS fuel t {} = .ok (e, ty) s → s.nerrs = 0 →
+    zonk fuel s.store ty = some zty → isValue (evalFuel n t) = true →
+    HasType [] [] (evalFuel n t) zty ∧
+    (Conv [] zty .int → ∃ k, evalFuel n t = .lit k) ∧
+    (Conv [] zty .bool → evalFuel n t = .tt ∨ evalFuel n t = .ff)
+theorem C04_value_inhabits_type_nolet : C04_value_inhabits_type_nolet_stmt :=
+  fun fuel n t e ty zty s ht _ hnl h hn hz hv =>
+    SoundRun.value_inhabits_type_nolet fuel n t e ty zty s ht hnl h hn hz hv
+
+/-- The hypotheses of `C04_value_inhabits_type_nolet` are satisfiable on a non-trivial program (checked by the
+kernel): `((a : type) => (x : a) => x) int 3` is hole-free, closed, group-free, accepted without diagnostics with
+zonked type `int` (fuel 40), and 5 steps of evaluation reach a value — the literal `3`, as the theorem predicts
+for type `int`. -/
+example : ∃ (fuel n : Nat) (t e ty zty : Tm) (s : St), t.holeFree = true ∧ wellScoped 0 t = true ∧
+    CheckSound.noLet t = true ∧ inferS fuel t {} = .ok (e, ty) s ∧ s.nerrs = 0 ∧
+    zonk fuel s.store ty = some zty ∧ isValue (evalFuel n t) = true ∧
+    t = .app (.app (.lam 1 false .type (.lam 2 false (.var 1 0) (.var 2 0))) .int) (.lit 3) ∧
+    zty = .int ∧ evalFuel n t = .lit 3 :=
+  let ⟨e, ty, s, h1, h2, h3, h4, h5, h6, h7, h8⟩ := SoundRun.demoOK_spec SoundRun.idProg_ok
+  ⟨40, 5, SoundRun.idProg, e, ty, .int, s, h1, h2, h3, h4, h5, h6, h7, rfl, rfl, h8⟩
+
+/-- The theorem instantiated on a program with a higher-order function, a conditional, arithmetic and a
+comparison, `((f : int -> int) => (b : bool) => if b then f (2 * 3) else 0 - 1) ((y : int) => y + 1) (1 < 2)`:
+its value after 10 steps has type `int` and is an integer literal. -/
+example : HasType [] [] (evalFuel 10 SoundRun.iteProg) .int ∧ ∃ k, evalFuel 10 SoundRun.iteProg = .lit k :=
+  let ⟨e, ty, s, h1, h2, h3, h4, h5, h6, h7, _⟩ := SoundRun.demoOK_spec SoundRun.iteProg_ok
+  let r := C04_value_inhabits_type_nolet 40 10 SoundRun.iteProg e ty .int s h1 h2 h3 h4 h5 h6 h7
+  ⟨r.1, r.2.1 (.refl _ _)⟩
